@@ -302,6 +302,7 @@ type grpcClientConn struct {
 	responseHeader   http.Header
 	responseTrailer  http.Header
 	readTrailers     func(*grpcUnmarshaler, *duplexHTTPCall) http.Header
+	trailersMerged   bool // the response's trailers have been copied into responseTrailer
 }
 
 func (cc *grpcClientConn) Spec() Spec {
@@ -347,10 +348,15 @@ func (cc *grpcClientConn) Receive(msg any) error {
 		return err
 	}
 	// See if the server sent an explicit error in the HTTP or gRPC-Web trailers.
-	mergeHeaders(
-		cc.responseTrailer,
-		cc.readTrailers(&cc.unmarshaler, cc.duplexCall),
-	)
+	if !cc.trailersMerged {
+		// Only once: a Receive after the end of the stream must not append the
+		// same trailers again.
+		cc.trailersMerged = true
+		mergeHeaders(
+			cc.responseTrailer,
+			cc.readTrailers(&cc.unmarshaler, cc.duplexCall),
+		)
+	}
 	serverErr := grpcErrorFromTrailer(cc.bufferPool, cc.protobuf, cc.responseTrailer)
 	if serverErr != nil && (errors.Is(err, io.EOF) || !errors.Is(serverErr, errTrailersWithoutGRPCStatus)) {
 		// We've either:
